@@ -62,8 +62,8 @@ ASSUMPTIONS = [
     "model says the location is occupied",
     "'bound' is read from the live model through public API (model.refs, space.refs incl. derived refs) by "
     "object identity; the reference model only keeps which specs were created and not yet orphaned",
-    "write-read is evaluated once per distinct IO configuration (specs, pandas/module bindings, space "
-    "structure) per work item, on non-violating states",
+    "write-read is evaluated once per distinct IO configuration (live specs, pandas/module bindings, space "
+    "structure) per worker process, on non-violating states with >= 1 live spec",
     "state merging on the canonical state (session description, spec views, iomanager keys, "
     "_valid_to_refs by label, first-use flags); audited without merging at depth-1",
     "CPython 3.12, PYTHONHASHSEED=0, pandas / openpyxl as installed",
@@ -591,23 +591,24 @@ def norm_keep(path):
     return posixpath.join(*str(path).split("/"))
 
 
-def io_config(w):
-    cfg = {}
-    for mname in w.open_models():
-        m = w.models[mname]
-        cfg[mname] = {
-            "live": sorted(rec_key(r) for r in w.live[mname]),
-            "bind": safe(lambda: bindings(w, mname)),
-            "spaces": safe(lambda: sorted([s.fullname, [x.name for x in s._direct_bases]]
-                                          for s in walk_spaces(m, dynamic=False))),
-        }
-    return digest(cfg)
+def io_config(w, mname):
+    """What a write of model ``mname`` depends on, as far as live specs are concerned."""
+    m = w.models[mname]
+    return digest({
+        "model": mname,
+        "live": sorted(rec_key(r) for r in w.live[mname]),
+        "bind": safe(lambda: bindings(w, mname)),
+        "spaces": safe(lambda: sorted([s.fullname, [x.name for x in s._direct_bases]]
+                                      for s in walk_spaces(m, dynamic=False))),
+    })
 
 
-def write_read(w):
-    """Write every open model, read it back; check files and values of live specs."""
+def write_read(w, only=None):
+    """Write every open model holding live specs, read it back; check files and values of live specs."""
     viols = []
     for mname in w.open_models():
+        if not w.live[mname] or (only is not None and mname not in only):
+            continue
         m = w.models[mname]
         out = w.scratch.outdir()
         try:
@@ -707,12 +708,15 @@ def outcome(op, obs, w):
 # --------------------------------------------------------------------------------------
 # exploration
 
+_WR_SEEN = set()
+
+
 def explore(prefix, depth, scratch, b, merge=True, counts=None, outcomes=None, samples=None, do_wr=True):
     counts = counts if counts is not None else {}
     outcomes = outcomes if outcomes is not None else set()
     viols = []
     vkeys = set()
-    wr_seen = set()
+    wr_seen = _WR_SEEN          # per worker process: the verdict depends on the IO configuration only
 
     def cnt(k, n=1):
         counts[k] = counts.get(k, 0) + n
@@ -724,14 +728,17 @@ def explore(prefix, depth, scratch, b, merge=True, counts=None, outcomes=None, s
     def maybe_write_read(w, hist, kb, op):
         if not do_wr:
             return False
-        if not any(w.live[m] for m in w.live):
+        todo = []
+        for mname in w.open_models():
+            if w.live[mname]:
+                cfg = io_config(w, mname)
+                if cfg not in wr_seen:
+                    wr_seen.add(cfg)
+                    todo.append(mname)
+        if not todo:
             return False
-        cfg = io_config(w)
-        if cfg in wr_seen:
-            return False
-        wr_seen.add(cfg)
-        cnt("write_read_runs")
-        vs = write_read(w)
+        cnt("write_read_runs", len(todo))
+        vs = write_read(w, only=todo)
         if vs:
             for (c, o, e) in vs:
                 viols.append({"clause": c, "case": {"history": list(hist), "write_read": True},
@@ -1037,6 +1044,11 @@ def script(case):
         "            print(tag, m.name, 'iospecs:', m.iospecs)",
         "        print(tag, m.name, 'manager:', [s for io in mxsys.iomanager.get_ios(m).values() "
         "for s in io.specs.values()])",
+        "        if m.name in mx.get_models() and mx.get_models()[m.name] is m:",
+        "            holders = [(o.fullname, n) for o in [m] + list(m.spaces.values()) for n, v in o.refs.items()",
+        "                       if isinstance(v, (pd.DataFrame, pd.Series)) or (type(v).__name__ == 'module' "
+        "and n != '__builtins__')]",
+        "            print(tag, m.name, 'references holding pandas/module values:', holders)",
         "",
     ]
     nmods = 0
@@ -1106,7 +1118,7 @@ def coverage(agg, tier):
                 "root configuration; work items = all applicable 2-op prefixes, each explored to the full depth "
                 "with its own seen-set (states = sum over items of distinct canonical states); violating states "
                 "are terminal; every transition is an execution of the real modelx from a fresh world; "
-                "write-read is run once per distinct IO configuration with >= 1 live spec per work item",
+                "write-read is run once per distinct IO configuration with >= 1 live spec per worker process",
     }
     if "audit_items" in c:
         cov["canon_audit"] = "ok" if c.get("audit_mismatch", 0) == 0 else "mismatch"
